@@ -40,7 +40,7 @@ def run_case(part, m, rng, campaign):
     undo = fake_kernel.install()
     try:
         s = isotp.socket()
-        fk = s.real_socket() if hasattr(s, 'real_socket') else s._socket
+        fk = fake_kernel.CREATED[-1]       # the kernel socket the wrapper has just created
         kq(m, 'S reset'); kq(m, 'K reset')
         prior = rng.choice(['none', 'pad', 'txstmin', 'ext', 'ext_rx', 'fc', 'all'])
         calls = []
